@@ -61,6 +61,14 @@ Theorem C10_relen_coded_fields :
 Proof. exact relen_coded_fields. Qed.
 Print Assumptions C10_relen_coded_fields.
 
+(* the transcription used by the checker carries one flag per repair of /repo (ProtoEditCoded.fixes); with every flag
+   off its updateByteLen is the loop above *)
+Theorem C10_relen_coded_g_old :
+  forall b d pk lv,
+  relen_coded_g no_fixes b d pk (map (fun l => (Z.of_nat (fst l), snd l)) lv) = relen_coded b d pk lv.
+Proof. exact relen_coded_g_old. Qed.
+Print Assumptions C10_relen_coded_g_old.
+
 (* ... and it is NOT for a map-key step: the entry length stays stale (finding 1001).
    Root: map<string, M> field 3 with one entry "k" -> { 1: "a" }; path [3]["k"].1, the string grows to 130 bytes.
    addresses: 0 (entry tag), 5 (value tag), 7 (tag of field 1). *)
